@@ -7,5 +7,5 @@ CONSTANTS
 SPECIFICATION Spec
 CONSTRAINT Bound
 INVARIANTS TypeOK RootFinishesOnce DocumentedResult ChildStartOrder NoRestartWhileUnderway NothingLeftRunning
-  NoStaleNotification FinalOncePerRun ResetIsFresh PauseHoldsResults
+  NoStaleNotification FinalOncePerRun ResetIsFresh PauseHoldsResults AtMostOnePending
 CHECK_DEADLOCK FALSE
